@@ -14,6 +14,21 @@ import (
 func init() {
 	register(&Module{Name: "MdiffFmt", Run: func(x *X) {
 		const ff, rf, mf = "mdiff/format.go", "mdiff/reader.go", "mdiff/mdiff.go"
+		// Every definition is ALWAYS emitted: whatever could not be extracted (x.fail has been called, so
+		// `recognised := false`) falls back to its pinned value, so that the driver still builds and the search
+		// for a failing input can run against the pinned model.
+		defer func() {
+			have := x.out.String()
+			for _, d := range mdiffPinned {
+				name := strings.Fields(d)[1]
+				if !strings.Contains(have, "def "+name+" ") {
+					if len(x.why) == 0 {
+						x.fail("internal: %s was not emitted", name)
+					}
+					x.emit("/-- pinned fall-back (not extracted) -/\n%s\n", d)
+				}
+			}
+		}()
 		dspan := x.Func(ff, "", "dspan")
 		uspan := x.Func(ff, "", "uspan")
 		normal := x.Func(ff, "", "Normal")
@@ -346,4 +361,45 @@ func litOf(e ast.Expr) (string, error) {
 		return strconv.Unquote(l.Value)
 	}
 	return "", fmt.Errorf("not a string literal")
+}
+
+// mdiffPinned lists every definition of Gen.MdiffFmt with its value on the pinned tree.
+var mdiffPinned = []string{
+	"def dspanSingle (start stop : Nat) : Bool := ((stop - start) == 1)",
+	"def dspanOne (start stop : Nat) : Nat := start",
+	"def dspanFst (start stop : Nat) : Nat := start",
+	"def dspanSnd (start stop : Nat) : Nat := (stop - 1)",
+	"def uspanSingle (start stop : Nat) : Bool := ((stop - start) == 1)",
+	"def uspanOne (start stop : Nat) : Nat := start",
+	"def uspanFst (start stop : Nat) : Nat := start",
+	"def uspanSnd (start stop : Nat) : Nat := (stop - start)",
+	"def normalDropRight (lpos rpos : Nat) : Nat := (rpos - 1)",
+	"def normalAddLeft (lpos rpos : Nat) : Nat := (lpos - 1)",
+	`def uniDrop : String := "-"`,
+	`def uniEmit : String := " "`,
+	`def uniCopy : String := "+"`,
+	`def ctxDrop : String := "- "`,
+	`def ctxEmit : String := "  "`,
+	`def ctxRepl : String := "! "`,
+	`def ctxCopy : String := "+ "`,
+	`def nrmDel : String := "< "`,
+	`def nrmIns : String := "> "`,
+	"def spanOmitted (lo : Nat) : Nat := 0",
+	"def uniLStart (llo lhi rlo rhi : Nat) : Nat := llo",
+	"def uniLEnd (llo lhi rlo rhi : Nat) : Nat := (llo + lhi)",
+	"def uniRStart (llo lhi rlo rhi : Nat) : Nat := rlo",
+	"def uniREnd (llo lhi rlo rhi : Nat) : Nat := (rlo + rhi)",
+	"def rdUniEmit : Char := ' '",
+	"def rdUniDrop : Char := '-'",
+	"def rdUniCopy : Char := '+'",
+	"def rdUniHunk : Char := '@'",
+	"def nrmZeroMeansSame : Bool := true",
+	"def nrmLhiInc : Nat := 1",
+	"def nrmRhiInc : Nat := 1",
+	"def nrmAddLloInc : Nat := 1",
+	"def nrmDelRloInc : Nat := 1",
+	`def rdNrmDel : String := "< "`,
+	`def rdNrmIns : String := "> "`,
+	`def rdNrmSep : String := "---"`,
+	"def addContextBoundsGap : Bool := true",
 }
